@@ -25,6 +25,9 @@ EXPLANATION += ' RVV-RT-CONST.'
 
 TECHNIQUE += '; constant-reload agreement over the disassembly of the hand-written vector runtime'
 
+EXPLANATION += ' LW-POS-EXEC, RVV-RT-GENINPUT.'
+CLAIM += (' A64: the value of every mark a handler stores into the last-writer table - also the eight marks after a branch, also through a helper - is the code position after the last emitted word, decided by executing the handler at a concrete position (LW-POS-EXEC). Vector RISC-V: the registers that generated code only reads (CBRANCH mask source, scratchpad base and masks; collected by executing every handler of the generator and disassembling its words) are left with their entry value by every piece of the hand-written loop (RVV-RT-GENINPUT).')
+
 
 def run(ctx, R):
     F = astq.Facts(ctx, 'K0')
